@@ -437,6 +437,13 @@ impl<RW: QueueRW<T>, T> MultiQueue<RW, T> {
         }
     }
 
+    /// The tag cell of the slot in which the value for `count` is (or will be) published.
+    #[inline(always)]
+    pub fn wait_cell(&self, count: usize) -> &AtomicUsize {
+        let mask = (self.capacity - 1) as usize;
+        unsafe { &(*self.data.offset((count & mask) as isize)).wraps }
+    }
+
     fn reload_tail_multi(&self, tail_cache: usize, count: usize) -> usize {
         if let Some(max_diff_from_head) = self.tail.get_max_diff(count) {
             let current_tail = CountedIndex::get_previous(count, max_diff_from_head);
@@ -527,11 +534,14 @@ impl<RW: QueueRW<T>, T> InnerRecv<RW, T> {
             match self.queue.try_recv(&self.reader) {
                 Ok(v) => return Ok(v),
                 Err((_, TryRecvError::Disconnected)) => return Err(RecvError),
-                Err((pt, TryRecvError::Empty)) => {
+                Err((_, TryRecvError::Empty)) => {
+                    // The cell handed back by try_recv belongs to the position that attempt saw; another
+                    // consumer of this stream may have advanced it since, so derive the cell from the
+                    // count we are going to wait for.
                     let count = self.reader.load_count(Relaxed);
-                    unsafe {
-                        self.queue.waiter.wait(count, &*pt, &self.queue.writers);
-                    }
+                    self.queue
+                        .waiter
+                        .wait(count, self.queue.wait_cell(count), &self.queue.writers);
                 }
             }
         }
@@ -556,12 +566,12 @@ impl<RW: QueueRW<T>, T> InnerRecv<RW, T> {
             match self.queue.try_recv_view(op, &self.reader) {
                 Ok(v) => return Ok(v),
                 Err((o, _, TryRecvError::Disconnected)) => return Err((o, RecvError)),
-                Err((o, pt, TryRecvError::Empty)) => {
+                Err((o, _, TryRecvError::Empty)) => {
                     op = o;
                     let count = self.reader.load_count(Relaxed);
-                    unsafe {
-                        self.queue.waiter.wait(count, &*pt, &self.queue.writers);
-                    }
+                    self.queue
+                        .waiter
+                        .wait(count, self.queue.wait_cell(count), &self.queue.writers);
                 }
             }
         }
@@ -803,9 +813,10 @@ impl<RW: QueueRW<T>, T> Stream for &FutInnerRecv<RW, T> {
                     return Ok(Async::Ready(Some(msg)));
                 }
                 Err((_, TryRecvError::Disconnected)) => return Ok(Async::Ready(None)),
-                Err((pt, _)) => {
+                Err((_, _)) => {
                     let count = self.reader.reader.load_count(Relaxed);
-                    if unsafe { self.wait.fut_wait(count, &*pt, &self.reader.queue.writers) } {
+                    let cell = self.reader.queue.wait_cell(count);
+                    if self.wait.fut_wait(count, cell, &self.reader.queue.writers) {
                         return Ok(Async::NotReady);
                     }
                 }
@@ -839,9 +850,10 @@ impl<RW: QueueRW<T>, R, F: for<'r> FnMut(&T) -> R, T> Stream for FutInnerUniRecv
                     return Ok(Async::Ready(Some(msg)));
                 }
                 Err((_, _, TryRecvError::Disconnected)) => return Ok(Async::Ready(None)),
-                Err((_, pt, _)) => {
+                Err((_, _, _)) => {
                     let count = self.reader.reader.load_count(Relaxed);
-                    if unsafe { self.wait.fut_wait(count, &*pt, &self.reader.queue.writers) } {
+                    let cell = self.reader.queue.wait_cell(count);
+                    if self.wait.fut_wait(count, cell, &self.reader.queue.writers) {
                         return Ok(Async::NotReady);
                     }
                 }
